@@ -13,7 +13,11 @@ import lib
 from lib import fq, fql, cbool, clist, cnat
 from props import c07 as feedmod
 
-IMPORTS = "From Allfed Require Import Base.QRound Model.Herd Model.HerdCheck."
+IMPORTS = "From Allfed Require Import Base.QRound Model.Herd Model.HerdCheck Proofs.Herd."
+# initial state (Proofs/Herd.init_state) against the snapshot taken before month 0
+CHECK_INIT = ("Definition check_init (tol : Q) (qs obs : list Q) : nat := "
+              "let s := init_state (nthq qs 0) (nthq qs 1) (nthq qs 2) (nthq qs 3) (nthq qs 4) (nthq qs 5) (nthq qs 6) in "
+              "first_diff tol (Qmax' (Qabs' (nthq qs 0)) (Qabs' (nthq qs 1))) 1 [s_pop s; s_sl s; s_ptot s; s_pbirth s; s_pfrac s] obs.")
 TOL = "(1#1000000000)"
 SIZES = {"small": 0, "medium": 1, "large": 2}
 SQ = ["livestock_unit", "LSU_factor", "eg", "ef", "animal_slaughter_hours", "baseline_slaughter", "target_population_head",
@@ -79,6 +83,7 @@ def run(ctx):
     stats = {}
     jobs = []
     negb = {}
+    init_neg_sl = set()
     nb_bad = 0
     for rn, r in zip(runs + scan, res):
         tag = f"{rn['code']} {rn['scenario']} {rn['shape']}"
@@ -123,6 +128,14 @@ def run(ctx):
             for s, fw, pr in zip(st, mon["flows"], mon["pre"]):
                 nz = pr["pop"] > 0 and (fw["slaughter"] > 0 or fw["other_death_starving"] > 0 or fw["transfer_population"] != 0)
                 ctx.count((rn["code"], rn["scenario"], rn["shape"], rn.get("seed"), m, s["type"]), nontrivial=nz, n=0)
+        # initial state of every herd (append_month_zero) = init_state of its attributes
+        if "0" in r["months"]:
+            for s, pr in zip(st, r["months"]["0"]["pre"]):
+                terms.append(f"check_init {TOL} {fql([s['initital_population'], s['initial_slaughter'], s['births_animals_month_baseline'], s['birth_ratio'], s['animals_per_pregnancy'], s['gestation'], pr['pfrac']])} "
+                             f"{fql([pr['pop'], pr['sl'], pr['ptot'], pr['pbirth'], pr['pfrac']])}")
+                meta.append({"run": runinfo, "what": "initial state of " + s["type"]})
+                if s["initial_slaughter"] < 0:
+                    init_neg_sl.add(f"{rn['code']}:{s['type']}")
         # meat herds: baseline births formula (set_species_slaughter_attributes)
         milk_by_species = {s["species"]: s for s in st if s["milk"]}
         for s in st:
@@ -212,7 +225,7 @@ def run(ctx):
     def evaluate(kb):
         k, batch = kb
         codes = ctx.coq_codes(f"c06_{k}", IMPORTS, [t for j in batch for t in j[2]], per_file=100000,
-                              defs="\n".join(j[1] for j in batch))
+                              defs=CHECK_INIT + "\n" + "\n".join(j[1] for j in batch))
         out, i = [], 0
         for j in batch:
             out.append(codes[i:i + len(j[2])])
@@ -240,7 +253,8 @@ def run(ctx):
     ctx.notes["correspondence"] = {"coq_cases_months_and_formulas": ncase, "disagreements": nbad, "runs": len(jobs)}
     ctx.notes["audit"] = {"runs": len(runs), "scan_runs_all_countries": len(scan), "stats": stats,
                           "countries_in_long_runs": sorted(set(r["code"] for r in runs)),
-                          "negative_births_pairs": sorted(negb.keys())}
+                          "negative_births_pairs": sorted(negb.keys()),
+                          "herds_with_negative_initial_slaughter": sorted(init_neg_sl)}
     if jobs:
         ctx.sample({"run": {k: (v if not isinstance(v, list) else v[:3] + ["..."]) for k, v in jobs[0][3][0]["run"].items()},
                     "month": jobs[0][3][0].get("month"), "herds": jobs[0][3][0].get("names")})
